@@ -42,6 +42,30 @@ def confirm(prop, f, cldr):
         payload["how_to_replay"] = "%s eval %s" % (hostrun.HOST_BIN, f.case.dir)
         path = report.write_replay(prop, name, payload)
         return ("confirmed" if ok else "not_reproduced"), path
+    if f.kind in ("required_args_differ", "count_bound_differs", "generated_code_rejected_by_rustc"):
+        # rustc is the oracle: a crate that expands load_locales!() on the project and supplies exactly the arguments the
+        # source requires must compile
+        reqs = []
+        if f.kind != "generated_code_rejected_by_rustc" and f.hk is not None:
+            want = (f.detail or {}).get("required_by_source") or f.hk.get("fields", [])
+            nums = {}
+            for fld in want:
+                b = " ".join((f.hk.get("bounds") or {}).get("__%s__" % fld, []))
+                if "InterpolateRangeCount<" in b:
+                    nums[fld] = {"ty": b.split("InterpolateRangeCount<")[1].split(">")[0], "v": 1}
+                elif "InterpolatePluralCount" in b:
+                    nums[fld] = {"ty": "plural", "v": 1}
+            reqs = [{"locale": (f.case.project.ident(f.case.project.default)), "path": f.hk.get("path", f.key), "fields": want, "strings": {}, "nums": nums}]
+        try:
+            out = replay.run_requests(f.case.dir, reqs)
+            payload["native"] = {"compiled": True, "output": out}
+            path = report.write_replay(prop, name, payload)
+            return "not_reproduced", path
+        except replay.ReplayError as e:
+            payload["native"] = {"compiled": False, "rustc": str(e)[-1800:]}
+            payload["how_to_replay"] = "cd %s && cargo build   (crate written from %s)" % (replay.CRATE, f.case.dir)
+            path = report.write_replay(prop, name, payload)
+            return "confirmed", path
     if f.kind == "native_validation_differs":
         payload.update(f.detail)
         payload["how_to_replay"] = "lib/replay.py run_requests(%r, [request])" % f.case.dir
@@ -237,6 +261,14 @@ def run_property(prop, tier, seed, cases, mode, functions_encoded, bounds, extra
     stats, findings = engine_g.run(prop, cases, flavours_mode=mode, run_name="%s_%s" % (prop, tier), cldr=cldr,
                                    extra_key_check=extra_key_check,
                                    timeout_ms=20000 if tier == "quick" else 60000)
+    # keys the evaluator could not handle: ask rustc whether the generated code is valid at all
+    seen_cases = set()
+    for c, path, ns, why in stats.eval_errors:
+        if c.tag in seen_cases or len(seen_cases) >= 2 or c.expect != "ok":
+            continue
+        seen_cases.add(c.tag)
+        findings.append(engine_g.Finding(prop, "generated_code_rejected_by_rustc", c, key=path, ns=ns, detail={"evaluator": why},
+                                         role=c.roles.get((ns, tuple(path))) or c.roles.get("*")))
     if validate is None:
         validate = 1 if tier == "quick" else 6
     val_total, val_mismatch, val_viol = (0, [], [])
